@@ -75,27 +75,27 @@ def parseEntries (s : String) : List (Nat × List Nat) :=
 
 /-- the plain-set transition: `none` = refused, with the reason -/
 def plain (g : Mon) (op : Op) : Except String Mon :=
-  let validTs (ts : List Nat) : Except String Unit :=
-    if ts = [] then .error "empty" else if ts.length > 15 then .error "limit.topics_arg"
+  let validTs (entry : String) (ts : List Nat) : Except String Unit :=
+    if ts = [] then .error "empty" else if ts.length > 15 then .error s!"limit.{entry}.topics_arg"
     else if !nodupB ts then .error "dup_arg" else if !ts.all g.topics.contains then .error "absent_topic" else .ok ()
   match op with
   | .addTopic t =>
     if g.topics.contains t then .error "dup"
-    else if g.topics.length ≥ 15 then .error "limit.topics"
+    else if g.topics.length ≥ 15 then .error "limit.add_claim_topic.topics"
     else .ok { g with topics := g.topics ++ [t] }
   | .removeTopic t =>
     if !g.topics.contains t then .error "absent"
     else .ok { g with topics := g.topics.erase t, rel := g.rel.filter (fun p => p.2 ≠ t) }
   | .addIssuer i ts => do
-    validTs ts
+    validTs "add_trusted_issuer" ts
     if g.issuers.contains i then .error "dup"
-    else if g.issuers.length ≥ 50 then .error "limit.issuers"
+    else if g.issuers.length ≥ 50 then .error "limit.add_trusted_issuer.issuers"
     else .ok { g with issuers := g.issuers ++ [i], rel := g.rel ++ ts.map (fun t => (i, t)) }
   | .removeIssuer i =>
     if !g.issuers.contains i then .error "absent"
     else .ok { g with issuers := g.issuers.erase i, rel := g.rel.filter (fun p => p.1 ≠ i) }
   | .update i ts => do
-    validTs ts
+    validTs "update_issuer_claim_topics" ts
     if !g.issuers.contains i then .error "absent"
     else .ok { g with rel := g.rel.filter (fun p => p.1 ≠ i) ++ ts.map (fun t => (i, t)) }
 
@@ -111,11 +111,13 @@ def check (g : Mon) (opl obs : String) : Mon × Option String :=
       | .error _, false => (g, none)
       | .ok _, false => (g, some (
           let near := match op with
-            | .addTopic _ => if g.topics.length = 14 then "limit.topics" else "valid"
-            | .addIssuer _ _ => if g.issuers.length = 49 then "limit.issuers" else "valid"
+            | .addTopic _ => if g.topics.length = 14 then "limit.add_claim_topic.topics" else "valid"
+            | .addIssuer _ ts => if g.issuers.length = 49 then "limit.add_trusted_issuer.issuers"
+                                 else if ts.length = 15 then "limit.add_trusted_issuer.topics_arg" else "valid"
+            | .update _ ts => if ts.length = 15 then "limit.update_issuer_claim_topics.topics_arg" else "valid"
             | _ => "valid"
-          s!"site=topics.{near}_refused the registry refused an operation the plain sets (with their documented limits) accept"))
-      | .error why, true => (g, some s!"site=topics.{why}_accepted the registry accepted an operation the plain sets refuse ({why})")
+          refusedSite "topics" near))
+      | .error why, true => (g, some (acceptedSite "topics" why))
     let T := natList (kvS ws "T")
     let I := natList (kvS ws "I")
     let TI := parseEntries (kvS ws "TI")
